@@ -1,0 +1,11 @@
+//go:build verif
+
+package signers
+
+// Exports for the verification harness (build tag "verif" only; add-only).
+
+// VerifRegistered returns the registered signer modules in registration order
+// (the order ByName, ByMagic and ByFileName search them in).
+func VerifRegistered() []*Signer {
+	return append([]*Signer(nil), registered...)
+}
